@@ -243,6 +243,10 @@ class Result:
             sch = b.get("scheme", "?")
             ps = self.per_scheme.setdefault(sch, dict(replayed=0, ok=0, violation=0, known=0, skip=0, drift=0))
             ps["replayed"] += 1
+            # which adversary plans / honest shapes were actually exercised (vacuity: a plan that never fires is visible)
+            self.plans = getattr(self, "plans", {})
+            pk = "%s:%s" % (sch, b.get("tag") or "(none)")
+            self.plans[pk] = self.plans.get(pk, 0) + 1
             sig = json.dumps([b.get("scheme"), b.get("tag"), b.get("polys"), b.get("ops"), b.get("adv"),
                               b.get("supported"), b.get("bounds"), b.get("hiding"), b.get("cfg"), b.get("stmt")], sort_keys=True)
             self.distinct.add(hashlib.sha1(sig.encode()).hexdigest())
@@ -306,6 +310,8 @@ class Result:
                    models=self.models, per_scheme=self.per_scheme, skipped_not_applicable=self.skipped,
                    known_findings_hit=self.known_hits, drift=len(self.drift), drift_examples=self.drift[:5],
                    exhaustive=False)
+        if getattr(self, "plans", None):
+            cov["plans_exercised"] = dict(sorted(self.plans.items()))
         if getattr(self, "schedule_checked", 0):
             cov["sponge_schedules_compared"] = self.schedule_checked
         if extra_cov:
